@@ -30,7 +30,6 @@ TRUSTED = ['NumPy slicing/broadcasting of amplitude[s]*mask[s]*exp(2 pi i opd[s]
            'pixel scales are compared for equality only; the model carries them as integers',
            'np.exp(1j*t) = cos t + i sin t (Float model) ; |z**2| = re^2 + im^2 up to rounding']
 UNPROVEN = ['fields and segment phasors with exactly one element are outside the theorems (known finding KF-C07-one-pixel-segment)',
-            'that boundary_slice returns a slice covering the mask support is a hypothesis (Seg.covers) of plane_multiply_pointwise; the hand model bboxSlice is tied by correspondence only',
             'the plane-type admission test of Plane.multiply (C08) and tilt bookkeeping (C04) are not part of this model']
 ASSUMPTIONS = ['every segment bounding box and every intermediate field has more than one element',
                'attribute arrays have the shape of the mask (otherwise NumPy raises or broadcasts; malformed input)']
